@@ -297,7 +297,84 @@ def _global_hoist_compared_strings(root: str) -> None:
                 fh.write(new)
 
 
+def _global_hoist_all_strings(root: str) -> None:
+    """every single-line string literal used as a value inside a function body (compared, returned, assigned, used as a
+    key or passed as an argument) becomes a module-level constant `_S_<n>`; docstrings and f-string parts stay"""
+    import ast as _ast
+
+    for dp, _dn, fn in os.walk(os.path.join(root, "synrbl")):
+        for f in fn:
+            if not f.endswith(".py"):
+                continue
+            path = os.path.join(dp, f)
+            with open(path, encoding="utf-8") as fh:
+                src = fh.read()
+            if not src.isascii():
+                continue
+            try:
+                tree = _ast.parse(src)
+            except SyntaxError:
+                continue
+            for n in _ast.walk(tree):
+                for ch in _ast.iter_child_nodes(n):
+                    ch._p = n
+            consts = []
+            for fn_ in [x for x in _ast.walk(tree) if isinstance(x, (_ast.FunctionDef, _ast.AsyncFunctionDef))]:
+                skip = set()
+                for d in fn_.decorator_list + fn_.args.defaults + [x for x in fn_.args.kw_defaults if x is not None]:
+                    skip |= {id(y) for y in _ast.walk(d)}
+                for st in fn_.body:
+                    for c in _ast.walk(st):
+                        if not (isinstance(c, _ast.Constant) and isinstance(c.value, str) and c.value and c.lineno == c.end_lineno) or id(c) in skip:
+                            continue
+                        par = getattr(c, "_p", None)
+                        if isinstance(par, _ast.Expr) or isinstance(par, (_ast.JoinedStr, _ast.FormattedValue)):
+                            continue  # docstring / f-string part
+                        if isinstance(par, _ast.BinOp) or isinstance(par, _ast.Attribute):
+                            continue  # implicit concatenations and "fmt".format(..) receivers keep their shape
+                        consts.append(c)
+            seen_pos = set()
+            uniq = []
+            for c in consts:
+                k = (c.lineno, c.col_offset)
+                if k not in seen_pos:
+                    seen_pos.add(k)
+                    uniq.append(c)
+            if not uniq:
+                continue
+            names = {}
+            lines = src.split("\n")
+            for c in sorted(uniq, key=lambda c: (c.lineno, c.col_offset), reverse=True):
+                line = lines[c.lineno - 1]
+                seg = line[c.col_offset : c.end_col_offset]
+                if not seg or seg[0] not in "\"'" or seg[:1] != seg[-1:]:
+                    continue  # prefixed (r"", b"") or adjacent-literal concatenation
+                try:
+                    if _ast.literal_eval(seg) != c.value:
+                        continue
+                except Exception:
+                    continue
+                nm = names.setdefault(c.value, "_S_%d" % len(names))
+                lines[c.lineno - 1] = line[: c.col_offset] + nm + line[c.end_col_offset :]
+            if not names:
+                continue
+            at = 0
+            for i, st in enumerate(tree.body):
+                if isinstance(st, (_ast.Import, _ast.ImportFrom)) or (i == 0 and isinstance(st, _ast.Expr) and isinstance(getattr(st, "value", None), _ast.Constant)):
+                    at = st.end_lineno
+            defs = ["%s = %r" % (nm, val) for val, nm in names.items()]
+            lines[at:at] = [""] + defs + [""]
+            new = "\n".join(lines)
+            try:
+                _ast.parse(new)
+            except SyntaxError:
+                continue
+            with open(path, "w", encoding="utf-8") as fh:
+                fh.write(new)
+
+
 GLOBAL_VARIANTS = {
+    "global-benign-hoist-all-strings": _global_hoist_all_strings,
     "global-benign-hoist-compared-strings": _global_hoist_compared_strings,
     "global-benign-rename-stage-attributes": _global_rename_stage_attrs,
     "global-benign-reformat": _global_reformat,
